@@ -17,7 +17,8 @@ import billiard.heap as bh
 from harness.hbase import fail, tier, Prune, PART, NPART, realize
 
 PAGE = 64
-UMAX = tier(8, 10)          # arena size in units of 8 bytes
+UMAX = tier(5, 9)           # arena size in units of 8 bytes
+SMAX = tier(48, 100)        # largest request
 
 
 class FakeArena:
@@ -234,7 +235,7 @@ def _free_step(u1, u2, u3, who, gc_at, gc_who, locked, want):
             h.malloc(8)
         except Exception as exc:
             return fail('C14:malloc-raises:' + type(exc).__name__ + ':after-deferred-free')
-        if h._pending_free_blocks:
+        if target in h._pending_free_blocks:
             return fail('C14:free:deferred-free-not-absorbed')
     bad = inv(h)
     if bad:
@@ -262,9 +263,17 @@ def _pre(u1, u2, u3):
     return 1 <= u1 and 1 <= u2 and 1 <= u3 and u1 + u2 + u3 <= UMAX
 
 
+def _gc(gc_at, gc_who, pend):
+    # either a GC-triggered free inside the operation (at call 1..3 of _malloc/_free/_absorb, victim = live block 0 or 1),
+    # or a block already waiting on the pending list, or neither
+    if gc_who == -1:
+        return gc_at == 0 and -1 <= pend <= 1
+    return 1 <= gc_at <= 3 and 0 <= gc_who <= 1 and pend == -1
+
+
 def h_malloc(u1: int, u2: int, u3: int, size: int, gc_at: int, gc_who: int, pend: int) -> bool:
     """
-    pre: _pre(u1, u2, u3) and 0 <= size <= 100 and 0 <= gc_at <= 4 and -1 <= gc_who <= 2 and -1 <= pend <= 2
+    pre: _pre(u1, u2, u3) and 0 <= size <= SMAX and _gc(gc_at, gc_who, pend)
     post: _
     """
     try:
@@ -275,7 +284,7 @@ def h_malloc(u1: int, u2: int, u3: int, size: int, gc_at: int, gc_who: int, pend
 
 def h_malloc_twin(u1: int, u2: int, u3: int, size: int, gc_at: int, gc_who: int, pend: int) -> bool:
     """
-    pre: _pre(u1, u2, u3) and 0 <= size <= 100 and 0 <= gc_at <= 4 and -1 <= gc_who <= 2 and -1 <= pend <= 2
+    pre: _pre(u1, u2, u3) and 0 <= size <= SMAX and _gc(gc_at, gc_who, pend)
     post: _
     """
     try:
@@ -286,7 +295,7 @@ def h_malloc_twin(u1: int, u2: int, u3: int, size: int, gc_at: int, gc_who: int,
 
 def h_free(u1: int, u2: int, u3: int, who: int, gc_at: int, gc_who: int, locked: bool) -> bool:
     """
-    pre: _pre(u1, u2, u3) and 0 <= who <= 2 and 0 <= gc_at <= 4 and -1 <= gc_who <= 2
+    pre: _pre(u1, u2, u3) and 0 <= who <= 2 and _gc(gc_at, gc_who, -1)
     post: _
     """
     try:
@@ -297,7 +306,7 @@ def h_free(u1: int, u2: int, u3: int, who: int, gc_at: int, gc_who: int, locked:
 
 def h_free_twin(u1: int, u2: int, u3: int, who: int, gc_at: int, gc_who: int, locked: bool) -> bool:
     """
-    pre: _pre(u1, u2, u3) and 0 <= who <= 2 and 0 <= gc_at <= 4 and -1 <= gc_who <= 2
+    pre: _pre(u1, u2, u3) and 0 <= who <= 2 and _gc(gc_at, gc_who, -1)
     post: _
     """
     try:
